@@ -14,7 +14,7 @@ ASSUMPTIONS = ['coordinates are multiples of 0.5 and parameters lie on the exact
 
 class AlignStream(Stream):
     name = 'align'
-    prelude = pl.ALIGN_CHECK
+    prelude = pl.ALIGN_CHECK_C15
     shard = 250
     weights = dict(realistic=2, blocks=4, dense=4, boundary=1, folding=2, fragment=1)
     quick_n, thorough_n = 4000, 60000
